@@ -60,6 +60,8 @@ pub fn rand_vars(r: &mut Rng, ids: &[u64], int_only: bool, boxed: bool) -> Vec<V
             let shape = if boxed { 1 } else { r.below(6) };
             let (has_bound, lo, hi) = match (kind, shape) {
                 ("binary", 0) => (false, None, None),
+                ("binary", 2) if !boxed => (true, Some(0), Some(0)), // explicit tightened bounds of a binary
+                ("binary", 3) if !boxed => (true, Some(1), Some(1)),
                 ("binary", _) => (true, Some(0), Some(1)),
                 (_, 0) => (false, None, None),
                 (_, 1) | (_, 2) => {
